@@ -1,4 +1,5 @@
 """C09 -- nsqd TCP protocol: every input gets its defined answer; limits hold (spec: NsqdTcp, NsqdTcpTrace)."""
+import glob
 import hashlib
 import json
 import os
@@ -10,7 +11,8 @@ META = {
                  "RejectedPublishEnqueuesNothing, StateMonotone, LimitsHold) and enumerates every command-class sequence "
                  "to the configured depth; each sequence is concretised (boundary + seeded members per argument class, "
                  "for seeded daemon limits) and replayed over real TCP against in-process nsqd daemons with a bystander "
-                 "client; seeded mutated / garbage byte streams are classified and validated by TLC against the same "
+                 "client (publishes to a topic that is being deleted: DeleteExistingTopic is parked at the verif yield "
+                 "point between topic.Delete() and the unlink); seeded mutated / garbage byte streams are classified and validated by TLC against the same "
                  "table (NsqdTcpTrace.tla)",
     "design_ref": "5/C09",
 }
@@ -64,16 +66,38 @@ def _table(ctx, tag):
     return rows, r.distinct
 
 
+def _inflight(ctx):
+    """Sequences that were publishing to a topic whose deletion was parked when the harness process died
+    (harness/cmd/api09/dying.go Breadcrumb): the files are removed when such a sequence ends."""
+    out = []
+    for p in sorted(glob.glob(os.path.join(ctx.scratch, "dying-inflight-*.json")))[:20]:
+        try:
+            out.append(json.load(open(p)))
+        except Exception:
+            pass
+    return out
+
+
 def _replay(ctx, rows, sequences_tlc, label, extra, timeout):
     """Binding A: replay the sequences of one configuration against real daemons."""
     rep = os.path.join(ctx.scratch, "replay-%s.json" % label)
+    for p in glob.glob(os.path.join(ctx.scratch, "dying-inflight-*.json")):
+        os.unlink(p)
     args = ["replay", "--rows", rows, "--seed", ctx.seed, "--report", rep, "--scratch", ctx.scratch] + extra
     rc, out, err = ctx.run_harness(args, timeout=timeout, name="api09")
     log(out.strip()[-400:])
     if not os.path.exists(rep):
         if "panic:" in err and "nsqio/nsq/nsqd" in err and "verifharness" not in err.split("panic:")[1][:1500]:
-            p = ctx.save_replay("daemon-crash", {"stderr": err[-8000:]})
-            ctx.violation("in-process nsqd panicked while the sequences were replayed:\n" + err[-1500:], p, key="daemon panic")
+            # an uncaught panic in a daemon goroutine (e.g. a connection's IOLoop) takes the whole harness
+            # process down: no report; the trace is on stderr
+            fl = _inflight(ctx)
+            p = ctx.save_replay("daemon-crash", {"stderr": err[-8000:], "publishing_to_a_topic_being_deleted": fl})
+            hint = ""
+            if fl:
+                hint = "\nin flight at that moment (publish to a topic whose deletion was parked half-way): " + "; ".join(
+                    "sequence %s [%s] %s" % (f.get("sequence"), f.get("env"), " / ".join(x.get("cmd", "") for x in f.get("steps", [])))
+                    for f in fl[:4])
+            ctx.violation("in-process nsqd panicked while the sequences were replayed:\n" + err[-1500:] + hint, p, key="daemon panic")
             return []
         raise Inconclusive("api09 replay failed (rc %s):\n%s" % (rc, (out + err)[-3000:]))
     R = json.load(open(rep))
@@ -83,7 +107,13 @@ def _replay(ctx, rows, sequences_tlc, label, extra, timeout):
     ctx.cov["evaluations"] += R["commands"]
     ctx.cov["distinct_nontrivial"] += R["replayed"]
     ctx.notes["replay_" + label] = {k: R[k] for k in ("sequences", "replayed", "runs", "commands", "rows_covered",
-                                                       "slow_req_checks", "wall_s", "bystander", "limits")}
+                                                       "slow_req_checks", "dying_rows", "wall_s", "bystander", "limits")}
+    # rows of the name class "dying" (publish to a topic whose deletion is parked half-way) in the table, and
+    # how many such publishes were sent to and judged on a real daemon while the deletion was parked
+    dying_table = sum(1 for l in open(rows) if l.startswith('"ROW ') and re.search(r"\| (PUB|MPUB|DPUB) dying ", l))
+    ctx.notes["dying_topic_" + label] = {"table_rows": dying_table, "publishes_replayed": R["dying_rows"]}
+    if dying_table and not R["dying_rows"] and not (R.get("violations") or R.get("inconclusive")):
+        raise Inconclusive("the table has %d rows for a publish to a topic being deleted, none was exercised" % dying_table)
     for s in (R.get("samples") or [])[:3]:
         ctx.sample({"replayed_sequence": s})
     return _report(ctx, "replay", R)
